@@ -142,7 +142,7 @@ def array_cases(draw, tier):
     alpha = st.integers(0, 7)
     a = draw(st.lists(alpha, min_size=n1, max_size=n1))
     b = draw(st.lists(alpha, min_size=n2, max_size=n2))
-    out = draw(st.sampled_from(['none', 'C', 'F']))
+    out = draw(st.sampled_from(['none', 'none', 'C', 'F', 'T', 'S']))      # caller-supplied destination: C / Fortran order, a transposed or a strided view
     outfill = draw(st.integers(0, 7))
     return dict(op=op, shape=list(shape), shape2=list(shape2), a=a, b=b, out=out, outfill=outfill)
 
@@ -157,11 +157,21 @@ def prop_arrays(case):
     args = [x1] if op == 'not' else [x1, x2]
     bshape = np.broadcast(*args).shape
     out = None
-    if case['out'] in ('C', 'F'):
-        out = np.full(bshape, case['outfill'], dtype=np.uint8, order=case['out'])
+    if case['out'] in ('C', 'F') or (case['out'] in ('T', 'S') and len(bshape) == 0):
+        out = np.full(bshape, case['outfill'], dtype=np.uint8, order='F' if case['out'] == 'F' else 'C')
+    elif case['out'] == 'T':
+        out = np.full(bshape[::-1], case['outfill'], dtype=np.uint8).T
+    elif case['out'] == 'S':
+        out = np.full(tuple(2 * d for d in bshape), case['outfill'], dtype=np.uint8)[tuple(slice(None, None, 2) for _ in bshape)]
     r = f(*args) if out is None else f(*args, out=out)
     if out is not None and r is not out:
         raise Violation(f'mv_{op}(out=...) returned a different array than the caller-supplied one')
+    if out is not None:             # the destination receives *the* result: code for code what the call without out= returns
+        r_plain = f(*args)
+        if not np.array_equal(np.asarray(r_plain), np.asarray(out)):
+            bad = np.argwhere(np.asarray(r_plain) != np.asarray(out))[0].tolist()
+            raise Violation(f'mv_{op} with out= ({case["out"]} layout) holds {np.asarray(out)[tuple(bad)]} at {bad}, the call without out= returns '
+                            f'{np.asarray(r_plain)[tuple(bad)]}')
     if r.shape != bshape:
         raise Violation(f'mv_{op}: result shape {r.shape} != broadcast shape {bshape}')
     a1 = np.broadcast_to(x1c, bshape); a2 = np.broadcast_to(x2c, bshape) if op != 'not' else None
